@@ -1193,7 +1193,7 @@ func TestVerifMetaCutObservation(t *testing.T) {
 	a, b := n.GetTopic("cuta"), n.GetTopic("cutb")
 	stop := make(chan struct{})
 	var persists, nonCut int64
-	var example atomic.Value
+	var example, exampleDoc, exampleChan atomic.Value
 	var wg sync.WaitGroup
 	wg.Add(1)
 	go func() {
@@ -1234,6 +1234,8 @@ func TestVerifMetaCutObservation(t *testing.T) {
 				if !ca[c] {
 					if atomic.AddInt64(&nonCut, 1) == 1 {
 						example.Store(fmt.Sprintf("document lists cutb/%s but not cuta/%s (cuta has %d channels, cutb %d)", c, c, len(ca), len(cb)))
+						exampleDoc.Store(append([]byte(nil), raw...))
+						exampleChan.Store(c)
 					}
 					break
 				}
@@ -1254,6 +1256,41 @@ func TestVerifMetaCutObservation(t *testing.T) {
 	close(stop)
 	wg.Wait()
 	ex, _ := example.Load().(string)
-	fmt.Printf("OBSERVATION global-cut snapshots=%d channel_pairs=%d non_global_cut_snapshots=%d %s\n",
-		atomic.LoadInt64(&persists), created, atomic.LoadInt64(&nonCut), ex)
+	// audit A4: what a SIGKILL at the instant that document was nsqd.dat would have left for the restart — the file as it
+	// is (a kill changes nothing on disk; temp files are never read).  Start a daemon on a data path holding exactly that
+	// file: it loads a set of channels the first daemon never passed through (every live state has chans(cutb) ⊆ chans(cuta)).
+	restart := "not-run"
+	if doc, ok := exampleDoc.Load().([]byte); ok {
+		c, _ := exampleChan.Load().(string)
+		opts2 := NewOptions()
+		opts2.Logger = log.New(io.Discard, "", 0)
+		opts2.DataPath = t.TempDir()
+		opts2.TCPAddress = "127.0.0.1:0"
+		opts2.HTTPAddress = "127.0.0.1:0"
+		os.WriteFile(filepath.Join(opts2.DataPath, "nsqd.dat"), doc, 0600)
+		n2, err := New(opts2)
+		if err != nil {
+			restart = "new-failed"
+		} else if err := n2.LoadMetadata(); err != nil {
+			restart = "load-failed"
+			n2.Exit()
+		} else {
+			inA, inB := false, false
+			if ta, err := n2.GetExistingTopic("cuta"); err == nil {
+				_, e := ta.GetExistingChannel(c)
+				inA = e == nil
+			}
+			if tb, err := n2.GetExistingTopic("cutb"); err == nil {
+				_, e := tb.GetExistingChannel(c)
+				inB = e == nil
+			}
+			restart = fmt.Sprintf("loaded:cutb_has=%v:cuta_has=%v", inB, inA)
+			if inB && !inA {
+				restart = "loaded-never-passed-state"
+			}
+			n2.Exit()
+		}
+	}
+	fmt.Printf("OBSERVATION global-cut snapshots=%d channel_pairs=%d non_global_cut_snapshots=%d restart_from_that_file=%s %s\n",
+		atomic.LoadInt64(&persists), created, atomic.LoadInt64(&nonCut), restart, ex)
 }
